@@ -332,3 +332,12 @@ impl<N> Dag<N, Edge, FnIdInner> {
             i.0.0 >= self.n() ==> r is None,
     { unimplemented!() }
 }
+
+impl<N> Dag<N, Edge, FnIdInner> {
+    /// `Dag::edge_count()`
+    #[verifier::external_body]
+    pub fn edge_count(&self) -> (r: usize)
+        ensures r == self.edges().len(),
+    { unimplemented!() }
+}
+
